@@ -495,6 +495,28 @@ theorem derivesKs_cost_eq_depth {g : GrammarSpec} {r : Reg} (he : g.e = 0) :
     rw [Val.depthList, derivesK_cost_eq_depth he h1, derivesKs_cost_eq_depth he h2]
 end
 
+mutual
+/-- in either mode the node depth is at most the cost -/
+theorem derivesK_depth_le_cost {g : GrammarSpec} {r : Reg} :
+    ∀ {ty : Ty} {v : Val} {k : Nat}, DerivesK g r ty v k → v.depth ≤ k
+  | _, _, _, .int i => by simp [Val.depth]
+  | _, _, _, .float => by simp [Val.depth]
+  | _, _, _, .str s => by simp [Val.depth]
+  | _, _, _, .bool b => by simp [Val.depth]
+  | _, _, _, .abs h1 h2 h3 h4 => by have := derivesK_depth_le_cost h4; omega
+  | _, _, _, .node h1 h2 => by rw [Val.depth]; have := derivesKs_depth_le_cost h2; omega
+  | _, _, _, .list h => by rw [Val.depth]; have := derivesKs_depth_le_cost h; omega
+  | _, _, _, .tuple h => by rw [Val.depth]; have := derivesKs_depth_le_cost h; omega
+  | _, _, _, .union h1 h2 => by have := derivesK_depth_le_cost h2; omega
+  | _, _, _, .ann h => derivesK_depth_le_cost h
+theorem derivesKs_depth_le_cost {g : GrammarSpec} {r : Reg} :
+    ∀ {ts : List Ty} {vs : List Val} {k : Nat}, DerivesKs g r ts vs k → Val.depthList vs ≤ k
+  | _, _, _, .nil => by simp [Val.depthList]
+  | _, _, _, .cons h1 h2 => by
+    rw [Val.depthList]
+    have := derivesK_depth_le_cost h1; have := derivesKs_depth_le_cost h2; omega
+end
+
 /-! ### Soundness: a table below its equations is a lower bound of the cost -/
 
 /-- the keys of the table are closed under the successor relation of the grammar: every class or
@@ -1645,5 +1667,39 @@ theorem distIter_stable {g : GrammarSpec} {r : Reg} {d0 : DistTable} (hinv : Tab
   · have := h d0.length (by omega)
     rw [stepN_succ] at this
     exact absurd (stepN_length_stable hinv) this
+
+/-! ### Example grammars (used by the non-vacuity examples and the witness of C05) -/
+
+/-- The grammar `A ::= Leaf | Many(xs : list[A])` (A abstract). -/
+def witnessSpec : GrammarSpec :=
+  { classes := [⟨"A", true, none, []⟩, ⟨"Leaf", false, some 0, []⟩,
+                ⟨"Many", false, some 0, [("xs", .list (.cls 0))]⟩],
+    start := 0, considered := [1, 2] }
+
+/-- `Expr ::= Lit(v : int) | Add(l : Expr, r : Expr) | Neg(x : Annotated[Expr, …]) |
+Pair(t : tuple[Expr, bool]) | U(u : Union[Lit, Add])`, plus an unreachable class. -/
+def exSpec (expansion : Bool) : GrammarSpec :=
+  { classes := [⟨"Expr", true, none, []⟩,
+                ⟨"Lit", false, some 0, [("v", .int)]⟩,
+                ⟨"Add", false, some 0, [("l", .cls 0), ("r", .cls 0)]⟩,
+                ⟨"Neg", false, some 0, [("x", .ann (.cls 0) (.intRange 0 1))]⟩,
+                ⟨"Pair", false, some 0, [("t", .tuple [.cls 0, .bool])]⟩,
+                ⟨"U", false, some 0, [("u", .union [.cls 1, .cls 2])]⟩,
+                ⟨"Other", false, none, []⟩],
+    start := 0, considered := [1, 2, 3, 4, 5, 6], expansion := expansion }
+
+/-- rank of the classes of `exSpec`: the abstract root above its productions -/
+def exRank : Nat → Nat := fun n => if n = 0 then 1 else 0
+
+theorem exRanked (b : Bool) : ParentRanked (exSpec b).classes exRank := by
+  intro c p h
+  have hc : c < 7 ∨ 7 ≤ c := by omega
+  rcases hc with hc | hc
+  · have : c = 0 ∨ c = 1 ∨ c = 2 ∨ c = 3 ∨ c = 4 ∨ c = 5 ∨ c = 6 := by omega
+    rcases this with rfl | rfl | rfl | rfl | rfl | rfl | rfl <;> simp [exSpec] at h <;>
+      subst h <;> simp [exRank]
+  · have : (exSpec b).classes.getD c default = default := by
+      rw [List.getD_eq_getElem?_getD, List.getElem?_eq_none (by simpa [exSpec] using hc)]; rfl
+    rw [this] at h; cases h
 
 end GEVerif.Analysis
